@@ -511,6 +511,14 @@ def rule_allkept(program, ctx, prop=P, rid="C18.kept"):
             if any(isinstance(c, ast.Call) and call_name(c) == "self.parse_option" for c in ast.walk(v)):
                 found = True
                 ctx.bad(finding_at(prop, rid, s_, f"the rules of a command are post-processed (`{ast.unparse(v)[:60]}`) before they are stored: configured rules can be dropped"))
+    for dc in [d for d in walk_no_nested(fn) if isinstance(d, ast.DictComp)]:
+        v = dc.value
+        if isinstance(v, ast.Call) and call_name(v) == "self.parse_option":
+            found = True
+            ctx.ok(rid, dc, f"{{{ast.unparse(dc.key)}: self.parse_option(...)}} comprehension")
+        elif not isinstance(v, ast.DictComp) and any(isinstance(c, ast.Call) and call_name(c) == "self.parse_option" for c in ast.walk(v)):
+            found = True
+            ctx.bad(finding_at(prop, rid, dc, f"the rules of a command are post-processed (`{ast.unparse(v)[:60]}`) before they are stored: configured rules can be dropped"))
     if not found:
         # the value may be built by an inlined helper: any list that is filtered between parse_option and the store
         pos = [s_ for s_ in walk_no_nested(fn) if isinstance(s_, ast.Assign) and isinstance(s_.value, ast.Call) and call_name(s_.value) == "self.parse_option"]
